@@ -135,8 +135,75 @@ static void apply_env(jv *s)
 
 static int is_env(jv *s) { return s && !strcmp(j_str(s, "e", ""), "env"); }
 
+/* ---- free-running mode (trace validation, DESIGN 0): children follow timed schedules of their own, the simulated
+ * kernel advances the virtual clock when a call blocks, and every environment step taken is written to the trace ---- */
+static int free_mode;
+extern int sk_block_until;
+struct sched_ev { int t; char k[8]; int a; };
+static struct { struct sched_ev ev[32]; int n, next; int term_delay; int die_at; } fsch[MAXH];
+static int stuck;
+
+static void trace_env(const char *k, int h, const char *f1, long v1, const char *f2, long v2)
+{
+  jv *s = j_mkobj();
+  j_put(s, "e", j_mkstr("env")); j_put(s, "k", j_mkstr(k));
+  if (h) j_put(s, "h", j_mkint(h));
+  if (f1) j_put(s, f1, j_mkint(v1));
+  if (f2) j_put(s, f2, j_mkint(v2));
+  if (trace) j_push(trace, s);
+}
+
+/* apply one due event or advance the clock to the next event / the end of the current block; 0 = nothing can ever happen */
+static int free_step(int until)
+{
+  int best_h = 0, best_t = -1;
+  for (int h = 1; h < MAXH; h++) {
+    int p = child_of(h);
+    if (p < 0 || K->proc[p].state != PS_RUNNING) continue;
+    int t = -1;
+    if (fsch[h].die_at >= 0) t = fsch[h].die_at;
+    if (fsch[h].next < fsch[h].n && (t < 0 || fsch[h].ev[fsch[h].next].t < t)) t = fsch[h].ev[fsch[h].next].t;
+    if (t >= 0 && (best_t < 0 || t < best_t)) { best_t = t; best_h = h; }
+  }
+  if (best_h && best_t <= K->now) {
+    int h = best_h, p = child_of(h);
+    if (fsch[h].die_at >= 0 && fsch[h].die_at <= K->now) {
+      fsch[h].die_at = -1;
+      sk_child_exit(p, 15); trace_env("die", h, "sig", 15, NULL, 0);
+      return 1;
+    }
+    struct sched_ev *e = &fsch[h].ev[fsch[h].next++];
+    if (!strcmp(e->k, "out") || !strcmp(e->k, "err")) {
+      int tag = e->k[0] == 'o' ? 1 : 2;
+      int ispipe = K->proc[p].fd[tag].ofd >= 0 && K->obj[K->ofd[K->proc[p].fd[tag].ofd].obj].kind == OK_PIPE;
+      int w = sk_child_write(p, tag, e->a, tag, &coff[h][tag]);
+      if (w > 0 && ispipe) trace_env(e->k, h, "n", w, NULL, 0);
+    } else if (!strcmp(e->k, "exit")) { sk_child_exit(p, (e->a & 0xff) << 8); trace_env("exit", h, "code", e->a, NULL, 0); }
+    else if (!strcmp(e->k, "cclose")) { if (K->proc[p].fd[e->a].ofd >= 0 && K->obj[K->ofd[K->proc[p].fd[e->a].ofd].obj].kind == OK_PIPE) { sk_child_close(p, e->a); trace_env("cclose", h, "fd", e->a, NULL, 0); } }
+    else if (!strcmp(e->k, "cread")) { int g = sk_child_read(p, 0, e->a); if (g > 0) trace_env("cread", h, "n", g, "got", g); }
+    else if (!strcmp(e->k, "cclosex")) { int any = 0; for (int fd = 3; fd < SK_MAXFD; fd++) if (K->proc[p].fd[fd].ofd >= 0) any = 1; if (any) { for (int fd = 3; fd < SK_MAXFD; fd++) sk_child_close(p, fd); trace_env("cclosex", h, "x", 1, NULL, 0); } }
+    return 1;
+  }
+  int next = best_t;
+  if (until != SK_INF && (next < 0 || until < next)) next = until;
+  if (next < 0 || next <= K->now) return 0;
+  trace_env("adv", 0, "d", next - K->now, NULL, 0);
+  K->now = next;
+  return 1;
+}
+
+static void on_term_later(int h)
+{
+  if (free_mode && h > 0 && h < MAXH && fsch[h].die_at < 0) fsch[h].die_at = K->now + fsch[h].term_delay;
+}
+
 static int env_pull(void)
 {
+  if (free_mode) {
+    if (free_step(sk_block_until)) return 1;
+    stuck = 1;
+    return 0;
+  }
   if (pos < script->n && is_env(script->a[pos])) {
     jv *s = script->a[pos++];
     if (trace) j_push(trace, s);
@@ -148,8 +215,10 @@ static int env_pull(void)
 
 static jv *obs_all(jv *call, long r, jv *extra);
 
+static void finish_trace_stuck(void);
 static void on_hang(const char *what)
 {
+  if (free_mode) finish_trace_stuck();
   /* the code blocks although the model says the call returns here (or the script ended) */
   jv *o = j_mkobj();
   j_put(o, "blocked_in", j_mkstr(what));
@@ -342,6 +411,7 @@ static jv *obs_all(jv *call, long r, jv *extra)
   for (int i = 0; ALLKEYS[i]; i++) j_put(o, ALLKEYS[i], obs_key(ALLKEYS[i], call, r, extra));
   if (extra) for (int i = 0; i < extra->n; i++) j_put(o, extra->k[i], extra->a[i]);
   const char *fn = j_str(call, "fn", "");
+  if (!strcmp(fn, "poll")) j_put(o, "rev", obs_key("rev", call, r, extra));
   if (!strcmp(fn, "start")) {
     static const char *ak[] = { "pmask", "pdisp", "pcwd", "created", "fpoints", NULL };
     for (int i = 0; ak[i]; i++) j_put(o, ak[i], obs_key(ak[i], call, r, extra));
@@ -911,6 +981,17 @@ static jv *conc_obs(void)
   return a;
 }
 
+static void finish_trace_stuck(void)
+{
+  jv *s = j_mkobj(); j_put(s, "e", j_mkstr("stuck"));
+  if (trace) j_push(trace, s);
+  jv *v = verdict_base(1);
+  j_put(v, "stuck", j_mkint(1));
+  if (trace) j_put(v, "trace", trace);
+  emit(v);
+  __real__exit(10);
+}
+
 /* ---------- main loop over one script ---------- */
 static void run_script(jv *s)
 {
@@ -919,8 +1000,12 @@ static void run_script(jv *s)
   jv *cfg = s->a[0];
   sk_env_pull = env_pull;
   sk_on_hang = on_hang;
+  sk_on_term_later = on_term_later;
   setup(cfg);
-  if (opt_trace) { trace = j_mkarr(); j_push(trace, cfg); }
+  free_mode = (int) j_int(cfg, "free", 0);
+  memset(fsch, 0, sizeof fsch);
+  for (int h = 0; h < MAXH; h++) fsch[h].die_at = -1;
+  if (opt_trace || free_mode) { trace = j_mkarr(); j_push(trace, cfg); }
   pos = 1;
   int ncalls = 0;
   while (pos < s->n) {
@@ -928,10 +1013,30 @@ static void run_script(jv *s)
     const char *e = j_str(st, "e", "");
     progress->step = pos;
     if (!strcmp(e, "env")) { pos++; if (trace) j_push(trace, st); cur_call = NULL; apply_env(st); continue; }
+    if (!strcmp(e, "call") && free_mode && !strcmp(j_str(st, "fn", ""), "sleep")) {
+      /* the caller does nothing for d ticks: children and clock move on */
+      pos++;
+      int target = K->now + (int) j_int(st, "d", 1);
+      while (K->now < target && free_step(target)) {}
+      continue;
+    }
     if (!strcmp(e, "call")) {
       cur_call = st;
       pos++;
       jv *extra;
+      if (free_mode && trace) { jv *b = j_mkobj(); j_put(b, "e", j_mkstr("begin")); j_put(b, "call", st); j_push(trace, b); }
+      if (free_mode && !strcmp(j_str(st, "fn", ""), "start")) {
+        int h = (int) j_int(st, "h", 0);
+        jv *sc = j_get(st, "sched");
+        if (h > 0 && h < MAXH && !Hpid[h]) {   /* (a rejected second start must not disturb the running child's schedule) */
+          fsch[h].n = 0; fsch[h].next = 0; fsch[h].die_at = -1; fsch[h].term_delay = (int) j_int(st, "termdelay", 1);
+          int t = K->now;
+          if (sc) for (int i = 0; i < sc->n && i < 32; i++) {
+            t += (int) sc->a[i]->a[0]->i;
+            fsch[h].ev[i].t = t; strncpy(fsch[h].ev[i].k, sc->a[i]->a[1]->s, 7); fsch[h].ev[i].a = (int) sc->a[i]->a[2]->i; fsch[h].n++;
+          }
+        }
+      }
       long r = do_call(st, &extra);
       ncalls++;
       jv *ret = pos < s->n ? s->a[pos] : NULL;
@@ -950,7 +1055,7 @@ static void run_script(jv *s)
         jv *badkeys = NULL, *firstexp = NULL;
         for (int i = 0; i < ret->n; i++) {
           const char *key = ret->k[i];
-          if (!strcmp(key, "e")) continue;
+          if (!strcmp(key, "e") || !strcmp(key, "ralt")) continue;
           jv *exp = ret->a[i];
           jv *obs = obs_key(key, st, r, extra);
           int ok;
